@@ -27,7 +27,7 @@ for p in props:
         na.append({"property_id": p, "reason": na_reasons.get(p, "check not built yet in this session (see DESIGN.md §8 build order)")})
 m = {
     "version": 1,
-    "setup_cmd": "python3 tools/extract.py /repo; cd lean && lake build " + " ".join("LoguruModel.Props.%s LoguruModel.Audit.%s" % (c["property_id"], c["property_id"]) for c in checks),
+    "setup_cmd": "python3 tools/extract.py /repo; cd lean && lake build " + " ".join("LoguruModel.Props.%s LoguruModel.Audit.%s" % (c["property_id"], c["property_id"]) for c in checks) + " $(python3 ../tools/driver_targets.py)",
     "hooks": {"guard": "LOGURU_VERIF", "enable": "no source hooks are needed: the harness intercepts through module attributes, subclasses and documented parameters (DESIGN.md §6); the guard name is reserved",
               "baseline_off_cmd": base, "source_commits": [], "add_only": True},
     "engines": [{"name": "lean-model+correspondence", "path": "check", "serves_properties": [c["property_id"] for c in checks],
